@@ -339,3 +339,22 @@ PLAN["C09"] = {
     ],
     "scope_note": "bounded: see per-harness scopes",
 }
+
+
+PLAN["C15"] = {
+    "level": "model_checking",
+    "technique": "BOUNDED Kani contract triples on the real Esop::from(&Lut) for every function of n <= 2 variables (n = 3 in thorough, function by function) against the algebraic-normal-form coefficients computed by the harness, and on Esop value / ^ (four forms) / ! / conversion to Lut / is_zero / is_one with exactly K symbolic cubes over all 32 variables",
+    "level_text": "Bounded: for every function of n <= 2 variables (3 in thorough) the converted Esop contains the all-positive cube of variable set S exactly a_S times (a_S = XOR of f over the assignments inside S) and nothing else, and converts back to the function; value is the parity of the cube values, ^ and ! denote XOR and complement, Lut::from tabulates value, is_zero/is_one imply the constants, for every Esop of exactly K <= 3 (4-5 thorough) arbitrary cubes.",
+    "level_note": "BOUNDED (n <= 2/3 for the conversion; cube counts fixed per harness). The Moebius sweep for larger n is not covered: CBMC runs out of memory on a symbolic 3-variable table, and Lut (Box<[u64]>) + Vec<Cube> are outside what the Verus extraction supports.",
+    "kani_units": ["spec_ops.rs", "c12_cube.rs", "c15_esop.rs"],
+    "kani_filters": {"quick": ["c15q_"], "thorough": ["c15t_"]},
+    "kani_scope": {r"from_lut_n(\d)": "bounded(every function of this n; n = 2, 3: one concrete table at a time)", r"_k(\d)": "bounded(exactly this many arbitrary cubes, this n)", r"constants": "complete(loop-free)"},
+    "harness_timeout": {"quick": 900, "thorough": 3600},
+    "functions": ["From<&Lut> for Esop", "From<&Esop> for Lut", "Esop::value", "Esop::xor + BitXor (4 impls)", "Not for Esop (2 impls)", "Esop::is_zero", "Esop::is_one", "Esop::zero/one/nth_var/nth_var_inv"],
+    "assumptions": [
+        "bounds: conversion n <= 2 (quick), 3 (thorough); operators with exactly K cubes, K <= 3 (quick), 5 (thorough), n <= 4",
+        "equal functions give equal Esops: follows from the coefficient-exact form (cube order = increasing variable-set index, by the sweep order) for the sizes covered",
+        "derived PartialEq on Cube is structural (trusted); cube semantics: C12",
+    ],
+    "scope_note": "bounded: see per-harness scopes",
+}
